@@ -1,7 +1,7 @@
 (** C12 -- from the enumerated Boolean facts (C12_Lift, generated shards) to readable
     equations about the GENERATED date functions. *)
 From Coq Require Import ZArith Lia Bool Uint63 PrimFloat String.
-From Bermuda Require Import Lib.PyPrim Lib.Loop.
+From Bermuda Require Import Lib.PyPrim Lib.Loop Lib.Calendar.
 From Gen Require Import GenDate C12_Base C12_Lift.
 Local Open Scope Z_scope.
 
@@ -206,4 +206,37 @@ Proof.
   (* 1969-11-30 , 1960-03-10 *)
   exists 719131, 715579. unfold LO0, HI0. split; [lia|]. split; [lia|].
   vm_compute. reflexivity.
+Qed.
+
+(* ---- bridge to Lib/Calendar.addm ---- *)
+Lemma KB_of_j k : isub (of_Z (k + KB)) (of_Z KB) = of_Z k.
+Proof.
+  unfold isub. change (PrimInt63.sub ?a ?b) with (a - b)%uint63.
+  rewrite <- of_Z_sub. f_equal. lia.
+Qed.
+Lemma to_Z_small z : 0 <= z <= 4611686018427387904 -> to_Z (of_Z z) = z.
+Proof. intros H. rewrite of_Z_spec, Z.mod_small; [reflexivity|]. rewrite wB_value. lia. Qed.
+
+Lemma addm_body_spec d k : - KB <= k <= KB ->
+  addm_body KB d (of_Z (k + KB)) = true -> stays d (of_Z k) = true ->
+  to_Z (ord_of_date (py_add_months d (K k))) = addm (to_Z (ord_of_date d)) k.
+Proof.
+  intros Hk. unfold addm_body. rewrite KB_of_j.
+  rewrite to_Z_small by (unfold KB in *; lia).
+  replace (k + KB - KB) with k by lia.
+  intros H Hs. rewrite Hs in H. apply Z.eqb_eq in H. exact H.
+Qed.
+
+Lemma addm_agrees id k : 0 <= id <= 1571 -> - KB <= k <= KB ->
+  (stays (month_start_of_id (of_Z id)) (of_Z k) = true ->
+   to_Z (ord_of_date (py_add_months (month_start_of_id (of_Z id)) (K k)))
+   = addm (to_Z (ord_of_date (month_start_of_id (of_Z id)))) k)
+  /\
+  (stays (month_end_of_id (of_Z id)) (of_Z k) = true ->
+   to_Z (ord_of_date (py_add_months (month_end_of_id (of_Z id)) (K k)))
+   = addm (to_Z (ord_of_date (month_end_of_id (of_Z id)))) k).
+Proof.
+  intros Hi Hk. pose proof (addm_all id (k + KB) Hi ltac:(lia)) as H.
+  unfold addm_kernel in H. apply andb_prop in H. destruct H as [H1 H2].
+  split; intros Hs; apply addm_body_spec; assumption.
 Qed.
